@@ -80,6 +80,10 @@ let () =
      done with End_of_file -> close_in ic);
   let stat : (ostr, int) Hashtbl.t = Hashtbl.create 64 in
   let bump k = Hashtbl.replace stat k (1 + try Hashtbl.find stat k with Not_found -> 0) in
+  (* feature vector of the current step: boundary classes it exercises *)
+  let feats : ostr list ref = ref [] in
+  let vectors : (ostr, unit) Hashtbl.t = Hashtbl.create 4096 in
+  let feat k = bump ("class_" ^ k); feats := k :: !feats in
   let abs_of (r : int array) : arch =
     let b i = r.(i) = 1 in
     { rA = z_of_int (if r.(iM) = 1 then r.(iRAh) * 256 + r.(iRAl) else r.(iRA));
@@ -127,30 +131,33 @@ let () =
            if not (bcd_defined s m) then bump "skipped_invalid_bcd"
            else begin
              bump "compared";
+             feats := [];
              bump (Printf.sprintf "op_%02x" op);
              let dec = decimal_arith s m in
-             if dec then bump "class_decimal_valid_bcd";
+             if dec then feat "decimal_valid_bcd";
              (* boundary classes, from the spec's view of the operand *)
              let o k = memi (pre.(iRK) * 65536 + ((pre.(iPC) + k) land 0xFFFF)) in
              (match oploc md s m (z_of_int (o 1)) (z_of_int (o 2)) (z_of_int (o 3)) with
               | LLin ea -> let e = int_of_z ea in
-                 if e = 0xFFFFFF then bump "class_ea_top_of_space";
-                 if e land 0xFFFF = 0xFFFF then bump "class_ea_bank_end";
-                 if e land 0xFF = 0xFF then bump "class_ea_page_end";
+                 if e = 0xFFFFFF then feat "ea_top_of_space";
+                 if e land 0xFFFF = 0xFFFF then feat "ea_bank_end";
+                 if e land 0xFF = 0xFF then feat "ea_page_end";
                  (match md with
-                  | AbsX | AbsY | DpIndY | SrIndY -> if e lsr 16 <> pre.(iDBR) then bump "class_index_crosses_bank"
+                  | AbsX | AbsY | DpIndY | SrIndY -> if e lsr 16 <> pre.(iDBR) then feat "index_crosses_bank"
                   | _ -> ())
               | LWrap (b, off) -> let f = int_of_z off in
-                 if int_of_z b = 0 && f = 0xFFFF then bump "class_bank0_wrap_datum";
-                 (match md with ImmM | ImmX | Imm8 | Imm16 -> () | _ -> if pre.(iRD) land 0xFF <> 0 then bump "class_DL_nonzero")
+                 if int_of_z b = 0 && f = 0xFFFF then feat "bank0_wrap_datum";
+                 (match md with ImmM | ImmX | Imm8 | Imm16 -> () | _ -> if pre.(iRD) land 0xFF <> 0 then feat "DL_nonzero")
               | LAcc -> ());
              let len = int_of_z (op_length (z_of_int op) s.fM s.fX) in
-             if pre.(iPC) + len > 0xFFFF then bump "class_pc_wraps_in_bank";
-             if pre.(iSP) <= 3 || pre.(iSP) >= 0xFFFC then bump "class_sp_near_wrap";
+             if pre.(iPC) + len > 0xFFFF then feat "pc_wraps_in_bank";
+             if pre.(iSP) <= 3 || pre.(iSP) >= 0xFFFC then feat "sp_near_wrap";
              if pre.(iM) = 0 then bump "class_m16" else bump "class_m8";
              if pre.(iX) = 0 then bump "class_x16" else bump "class_x8";
-             if pre.(iM) = 1 && pre.(iRA) <> pre.(iRAh) * 256 + pre.(iRAl) then bump "class_stale_RA";
-             if pre.(iX) = 1 && (pre.(iRX) <> pre.(iRXl) || pre.(iRY) <> pre.(iRYl)) then bump "class_stale_RX_RY";
+             if pre.(iM) = 1 && pre.(iRA) <> pre.(iRAh) * 256 + pre.(iRAl) then feat "stale_RA";
+             if pre.(iX) = 1 && (pre.(iRX) <> pre.(iRXl) || pre.(iRY) <> pre.(iRYl)) then feat "stale_RX_RY";
+             if !feats <> [] then bump "nontrivial";
+             Hashtbl.replace vectors (Printf.sprintf "%02x:%d%d:%s" op pre.(iM) pre.(iX) (String.concat "," (List.sort compare !feats))) ();
              match r with
              | GPanic ->
                bump "diff"; bump ("diff_panic_" ^ mname);
@@ -199,5 +206,6 @@ let () =
          | GPanic -> ())
       ) results
     done with End_of_file -> close_in ic);
+  Hashtbl.replace stat "distinct_feature_vectors" (Hashtbl.length vectors);
   let keys = List.sort compare (Hashtbl.fold (fun k _ acc -> k :: acc) stat []) in
   List.iter (fun k -> Printf.printf "STAT %s %s %d\n" label k (Hashtbl.find stat k)) keys
